@@ -8,7 +8,7 @@ func init() {
 	Runners["C01"] = fileRunnerEnum(func(p *harness.Program) Result { return RunC01(p, false) })
 	harness.Specs["C01"] = &harness.PropSpec{
 		ID: "C01", Test: "TestC01", Kind: "file", Level: "fault_enumeration",
-		Quick: 2000, Thorough: 5000,
+		Quick: 2000, Thorough: 4000,
 		Rule: "evaluations = generated histories; each history (1-10 transactions quick, up to 30 thorough; alloc/overwrite/free/flush/checkpoint/" +
 			"rollback/failed commits/reopens/overflow-area transactions/max-size changes on open, bounded and unbounded, any WAL limit and initial meta area) is executed once on the simulated disk, then for EVERY " +
 			"op-log position after file creation all crash images are built: durable prefix + every subset of the un-synced page writes/truncates " +
